@@ -187,7 +187,11 @@ CHECKS = {
               "real pydantic verdicts on every (type, value), then runs check_types on real Parent/(Middle/)Child classes for the type "
               "pairs: an override accepted without declaration must be a semantic subtype (witness shown otherwise), declared overrides "
               "must pass, extra-field policy must not be loosened; child instances of installed and harness schema families are parsed "
-              "by every ancestor."),
+              "by every ancestor. PluginLoad.tla models how the check is wired into plugin loading under dependencies (entered "
+              "first, checked, dependencies in every order, taken out again on failure): TLC checks that a request is granted exactly "
+              "when nothing in the dependency closure is invalid and that the loaded set stays closed and valid; families of real "
+              "schema plugins (requires edges, parent plugins, invalid members) are requested in every order and judged by "
+              "Trace_PluginLoad.tla."),
         technique="TLA+ semantic subtype relation over a type grammar and corpus (TLC) + check_types decisions on real classes judged against it",
         design="4/C13, 6",
         note=("TLC and the specification; the value corpus is finite (a counterexample outside the corpus is not found); Accepts is "
